@@ -79,10 +79,8 @@ func (u *UEPolicyPart) GetPartContent() []uint8 {
 
 func (u *UEPolicyPart) MarshalBinary() ([]byte, error) {
 	buf := bytes.NewBuffer(nil)
-	// len
-	if u.Len == 0 {
-		_ = u.SetLen_byContent()
-	}
+	// len: always computed from the content, like the enclosing structures do
+	_ = u.SetLen_byContent()
 	if err := binary.Write(buf, binary.BigEndian, u.Len); err != nil {
 		return nil, err
 	}
